@@ -20,7 +20,7 @@ def gen_script(rng, tier):
     fake socket (component `tagpool`, judged by the Lean spec12: C11 + own-reply + C12 clauses)"""
     r = rng.random()
     if r < 0.4:
-        return e2e.gen_script(rng, tier, rng.choice(['parked', 'parked', 'parked', 'aged', 'edge', 'late'] + [None] * 6))
+        return e2e.gen_script(rng, tier, rng.choice(['parked', 'parked', 'parked', 'aged', 'edge', 'late', 'slowpeer'] + [None] * 6))
     if r < 0.65:
         # the serial transport on the step-controlled socket (component `serial2`: C02's clause
         # "no later request on a connection that saw an abandoned transaction")
